@@ -45,9 +45,13 @@ type c10case struct {
 
 const c10probe = "$A|$B|$a|$C|$RT|${N}"
 
+// c10probeUnset tells a variable that is set to the empty string from one that is not set.
+const c10probeUnset = "${A-noA}|${B-noB}|${a-noa}|${C-noC}|${N-noN}"
+
 type c10result struct {
 	Block   [][2]string
 	Probe   string
+	Unset   string
 	Extra   string
 	Echo    []string // the block's own name and value texts used again as step commands, expanded under the final environment
 	EnvDump string
@@ -55,7 +59,7 @@ type c10result struct {
 }
 
 func (r c10result) String() string {
-	return fmt.Sprintf("block=%v probe=%q extra=%q echo=%q env=%s err=%q", r.Block, r.Probe, r.Extra, r.Echo, r.EnvDump, r.Err)
+	return fmt.Sprintf("block=%v probe=%q set/unset=%q extra=%q echo=%q env=%s err=%q", r.Block, r.Probe, r.Unset, r.Extra, r.Echo, r.EnvDump, r.Err)
 }
 
 func c10dump(m map[string]string) string {
@@ -140,6 +144,7 @@ func c10reference(c c10case) (r c10result, collision bool) {
 	}
 	if r.Err == "" {
 		r.Probe, _ = interpolate.Interpolate(env, c10probe)
+		r.Unset, _ = interpolate.Interpolate(env, c10probeUnset)
 		r.Extra, _ = interpolate.Interpolate(env, "x-$A-${B}")
 	}
 	r.EnvDump = c10dump(env.m)
@@ -152,7 +157,8 @@ func c10real(c c10case) (r c10result, pan string) {
 		items = append(items, ordered.TupleSS{Key: kv[0], Value: kv[1]})
 	}
 	cs := &pipeline.CommandStep{Command: c10probe}
-	steps := pipeline.Steps{cs}
+	csUnset := &pipeline.CommandStep{Command: c10probeUnset}
+	steps := pipeline.Steps{cs, csUnset}
 	var echo []*pipeline.CommandStep
 	for _, kv := range c.Block {
 		for _, text := range kv {
@@ -196,6 +202,7 @@ func c10real(c c10case) (r c10result, pan string) {
 	})
 	if err == nil {
 		r.Probe = cs.Command
+		r.Unset = csUnset.Command
 		r.Extra, _ = p.RemainingFields["extra"].(string)
 		for _, e := range echo {
 			r.Echo = append(r.Echo, e.Command)
@@ -257,7 +264,7 @@ func c10judge(c c10case) (kind, detail string, collision bool) {
 		switch {
 		case fmt.Sprint(got.Block) != fmt.Sprint(want.Block):
 			k = "fold-block"
-		case got.Probe != want.Probe || got.Extra != want.Extra || fmt.Sprint(got.Echo) != fmt.Sprint(want.Echo):
+		case got.Probe != want.Probe || got.Unset != want.Unset || got.Extra != want.Extra || fmt.Sprint(got.Echo) != fmt.Sprint(want.Echo):
 			k = "fold-visible-values"
 		case got.EnvDump != want.EnvDump:
 			k = "fold-caller-env"
@@ -360,7 +367,7 @@ func init() {
 		ID: "C10",
 		Rule: "every env block of 1..3 (thorough: ..4, plus long single-name chains) entries over name alphabet {A,B,a,$N,...} and value alphabet {literal,$A,${B},$$A,${A:-d},$UNSET,$RT,...} " +
 			"x 14 caller environments (A, RT, N->A/C, lower-case names) x prefer-runtime flag x case-sensitive/insensitive x environment implementation " +
-			"(harness-owned, the library's internal env, nil) is run through the real Pipeline.Interpolate with a probe command, a top-level extra field and one command step per block name/value text (the same text again) and compared " +
+			"(harness-owned, the library's internal env, nil) is run through the real Pipeline.Interpolate with two probe commands (values; set-versus-unset through ${V-default}), a top-level extra field and one command step per block name/value text (the same text again) and compared " +
 			"with a reference left fold (block order and contents, probe strings, caller env afterwards). Non-trivial = more than one entry.",
 		Assumptions: []string{
 			"single-string expansion is delegated to github.com/buildkite/interpolate in both the code and the reference",
